@@ -12,7 +12,7 @@ RULE = ('cases are (value, text) pairs: every value with <= 3 atoms (quick; <= 4
         'distinct = fingerprint of the text; non-trivial = the value has at least one slash.')
 ASSUMPTIONS = ['reference reader/printer in vlib/refcat.py states the text grammar of the property',
                'blanks are space characters; punctuation atoms of cat.py are feature-less; feature text has no bracket/slash/blank']
-REQUIRED_MONITORS = {'contract:Category.parse': 1000, 'contract:Category.__str__': 1000, 'must-reject': 50}
+REQUIRED_MONITORS = {'print:derived-from-printed-value': 1000, 'contract:Category.parse': 1000, 'contract:Category.__str__': 1000, 'must-reject': 50}
 
 NSHARDS = 14
 
@@ -25,6 +25,9 @@ def shards(tier, seed):
     out.append({'name': 'shipped', 'kind': 'shipped', 'budget_s': 120})
     out.append({'name': 'repotests', 'kind': 'repotests', 'budget_s': 300})
     return out
+
+
+_DERIVE = [0]
 
 
 def _check_value(v, rng, R, ndecor):
@@ -47,6 +50,34 @@ def _check_value(v, rng, R, ndecor):
                             {'value': refcat.ref_print(v)})
         except Exception as e:
             R.violation('cat:roundtrip', f'str() of a rebuilt/copied value raised {e!r}', {'value': refcat.ref_print(v)})
+    # values derived from an already printed functor (dataclasses.replace, operators, .functor) are values of their own:
+    # nothing of the source's text may travel with them
+    _DERIVE[0] += 1
+    if v[0] == 'F' and (ndecor >= 3 or _DERIVE[0] % 8 == 0):     # every small value, every 8th of the larger ones
+        import dataclasses
+        derived = []
+        for sl in '/\\|':
+            if sl != v[2]:
+                derived.append((('F', v[1], sl, v[3]), lambda sl=sl: dataclasses.replace(real, slash=sl)))
+        derived.append((('F', v[3], v[2], v[1]), lambda: dataclasses.replace(real, left=real.right, right=real.left)))
+        derived.append((('F', v[1], v[2], v[1]), lambda: dataclasses.replace(real, right=real.left)))
+        derived.append((('F', v, '/', v[1]), lambda: real / real.left))
+        derived.append((('F', v[3], v[2], v[1]), lambda: real.functor(real.right, real.left)))
+        for dv, build in derived:
+            try:
+                d = build()
+            except Exception:
+                R.count('derive:route-not-offered')
+                continue
+            R.count('print:derived-from-printed-value')
+            try:
+                dt = str(d)
+                ok = refcat.to_ref(d) == dv and dt == refcat.ref_print(dv) and Category.parse(dt) == d
+            except Exception as e:
+                dt, ok = repr(e), False
+            if not ok:
+                R.violation('cat:roundtrip', f'value derived from printed {text!r} prints/reads as {dt!r}, expected {refcat.ref_print(dv)!r}',
+                            {'value': refcat.ref_print(v), 'derived': refcat.ref_print(dv)})
     texts = [text] + [refcat.decorate(v, rng) for _ in range(ndecor)]
     for i, t in enumerate(texts):
         R.case(t, nontrivial)
